@@ -6,7 +6,7 @@ for d in seeded/C*-[AB]; do
   id=$(basename $d); prop=${id%-*}
   [ -n "$1" ] && [[ ! "$id" =~ $1 ]] && continue
   cp evidence/$prop.json /tmp/.ev.bak 2>/dev/null
-  git -C /repo apply $d/patch.diff || { echo -e "$id\tNOAPPLY" >> /tmp/mut/detect.tsv; continue; }
+  git -C /repo apply /verif/$d/patch.diff || { echo -e "$id\tNOAPPLY" >> /tmp/mut/detect.tsv; continue; }
   t0=$(date +%s)
   out=$(./check $prop 2>&1); rc=$?
   git -C /repo checkout -- .
